@@ -86,6 +86,8 @@ def iop_expected(kind, arg):
 def run(pid, opmix, focus_text, manifest_assumptions, extra=None, allowed=None, use_iops=True, oracle='spec', corpus_prefixes=None):
     c = Check(pid)
     c.prove()
+    if c.tier == 'thorough':
+        c.coqchk()
     build_driver(['arrays'])
     gen_arrops.main()
     build_harness(['arrops'])
